@@ -826,6 +826,16 @@ func (b *BlockWise[C]) processReceivedMessage(w *responsewriter.ResponseWriter[C
 		return fmt.Errorf("cannot get payload: %w", err)
 	}
 	off := num * szx.Size()
+	if off == 0 {
+		// The first block (re)starts the transfer (RFC 7959, section 2.5): whatever is still held under this
+		// token - the beginning of an abandoned transfer - is dropped, the options and the code are the new ones.
+		cachedReceivedMessage.ResetOptionsTo(r.Options())
+		cachedReceivedMessage.SetCode(r.Code())
+		if err = payloadFile.Truncate(0); err != nil {
+			return fmt.Errorf("cannot truncate cached request: %w", err)
+		}
+		payloadSize = 0
+	}
 	if off == payloadSize { //nolint:nestif
 		payloadSize, err = copyToPayloadFromOffset(r, payloadFile, off)
 		if err != nil {
